@@ -13,6 +13,12 @@ CHECKS = {
         "quick": {"runs": 160000, "wall": 75},
         "thorough": {"runs": 4000000, "wall": 1500},
     },
+    "C02": {
+        "level": "exploration",
+        "legs": [("cont", "C02")],
+        "quick": {"runs": 80000, "wall": 75},
+        "thorough": {"runs": 3000000, "wall": 1500},
+    },
 }
 
 
@@ -22,6 +28,16 @@ def leg_of(check, i):
 
 
 EVIDENCE_TEXT = {
+    "C02": {
+        "rule": "each run = one container (indexed / xy / histogram / indexed-, xy-, histogram-parametric-model; kinds stratified over run "
+                "index) + seeded op list of add_error / add_matrix_error (cov | cor+err, abs | rel, scalar | vector, corr in {0,.3,.75,1}, axis as "
+                "0/1/'x'/'y'), disable / enable, value changes (data, x, y, fill, rebin, model parameters, model x), reads (err, cov_mat, cor_mat, "
+                "cov_mat_inverse, total error object), gc and scripted name collisions; reference = list of sources -> sum (sigma sigma^T) o rho. "
+                "non-trivial = >=3 mutators, >=1 source, >=1 read after a mutator; distinct = distinct event-log digests among those.",
+        "states_measure": "distinct (kind, total cached?, per-source (enabled, relative, type), model stale?, pending entries?) tuples",
+        "assumptions": ["matrix sources are generated symmetric PSD, correlation matrices valid", "UnbinnedContainer rejects sources by design and is not a host",
+                        "rebin keeps the bin count when sources exist", "inverse is only demanded when cond(V) <= 1e8"],
+    },
     "C12": {
         "rule": "each run = seeded constructor variant (n_bins+range | edges | inner edges+range | with fill_data) + seeded op list of "
                 "fill batches (incl. empty, scalars, duplicates, values exactly on first/inner/last edges, far outside), reads of "
